@@ -112,6 +112,57 @@ theorem heads_bases {h : Hist} {o : LoadOpts} {m : LMap} (hl : load h o = .ok m)
   · intro x; rw [hB, hids, G.bases_def x, hdown]
   · intro x; rw [hRB, hids, G.realBases_def x, hall]
 
+/-- **Heads and bases in terms of the history as written**: the four tuples the loaded map
+reports are exactly what the oracle computes from the files (`Spec.Rev.headsOf` … `realBasesOf`):
+heads = revisions no file names as `down_revision`, real heads = revisions no file names at all,
+bases = files without `down_revision`, real bases = files without any link. -/
+theorem heads_bases_history {h : Hist} {o : LoadOpts} {m : LMap} (hl : load h o = .ok m)
+    (hu : (h.map (·.id)).Nodup) (hd : ∀ r ∈ h, ∀ d ∈ r.down, d ∈ h.map (·.id)) :
+    (∀ x, x ∈ m.heads ↔ x ∈ headsOf h) ∧ (∀ x, x ∈ m.realHeads ↔ x ∈ realHeadsOf h) ∧
+    (∀ x, x ∈ m.bases ↔ x ∈ basesOf h) ∧ (∀ x, x ∈ m.realBases ↔ x ∈ realBasesOf h) := by
+  obtain ⟨h1, h2, h3, h4⟩ := heads_bases hl hu hd
+  obtain ⟨m1, _, hp1, _, _, _, _, hids, _⟩ := load_graph hl
+  obtain ⟨_, _, _, _, _, hids1, _⟩ := phase1_graph hp1 hu
+  have hidseq : m.ids = ids h := by rw [hids, hids1]; rfl
+  have hdn : ∀ i, m.downOf i = downParents h i := fun i => downOf_eq_downParents hl hu i
+  have hall : ∀ i p, p ∈ m.allDownOf i ↔ p ∈ parents h i := fun i p => allDownOf_mem_iff_parents hl hu i p
+  refine ⟨?_, ?_, ?_, ?_⟩
+  · intro x
+    rw [h1 x, hidseq]
+    unfold headsOf downChildren
+    simp only [List.mem_filter, List.isEmpty_iff, List.filter_eq_nil_iff, decide_eq_true_eq]
+    constructor
+    · rintro ⟨hx, hn⟩; exact ⟨hx, fun c hc hxc => hn c hc (by rw [hdn c]; exact hxc)⟩
+    · rintro ⟨hx, hn⟩; exact ⟨hx, fun c hc hxc => hn c hc (by rw [← hdn c]; exact hxc)⟩
+  · intro x
+    rw [h2 x, hidseq]
+    unfold realHeadsOf children
+    simp only [List.mem_filter, List.isEmpty_iff, List.filter_eq_nil_iff, decide_eq_true_eq]
+    constructor
+    · rintro ⟨hx, hn⟩; exact ⟨hx, fun c hc hxc => hn c hc ((hall c x).mpr hxc)⟩
+    · rintro ⟨hx, hn⟩; exact ⟨hx, fun c hc hxc => hn c hc ((hall c x).mp hxc)⟩
+  · intro x
+    rw [h3 x, hidseq, hdn x]
+    unfold basesOf
+    simp [List.mem_filter, List.isEmpty_iff]
+  · intro x
+    rw [h4 x, hidseq]
+    unfold realBasesOf
+    simp only [List.mem_filter, List.isEmpty_iff, decide_eq_true_eq]
+    constructor
+    · rintro ⟨hx, hn⟩
+      refine ⟨hx, ?_⟩
+      apply List.eq_nil_iff_forall_not_mem.mpr
+      intro p hp
+      have := (hall x p).mpr hp
+      rw [hn] at this; simp at this
+    · rintro ⟨hx, hn⟩
+      refine ⟨hx, ?_⟩
+      apply List.eq_nil_iff_forall_not_mem.mpr
+      intro p hp
+      have := (hall x p).mp hp
+      rw [hn] at this; simp at this
+
 /-- **Every traversal of an accepted history terminates with the full answer**: the closure
 loop never runs out of its fuel (it returns exactly the reachable set), and the topological sort
 never runs out of fuel (`C01.sort_total`, `C02.plan_of_set`). -/
